@@ -1,1 +1,5 @@
 NA = {}
+prop('C02','exploration','reference-model monitor (independent non-rolling chunker) over PRNG case lists + Go race detector + schedule perturbation at hook points',
+ 'Runs Chunker.Next, IndexFromFile(n=1..16), ChunkStream and `desync make` on generated inputs (boundary-sized, zero runs at worker starts, strided tails) under perturbed schedules with -race and compares every chunk table with an independent reference chunker anchored to a casync-made fixture; held on the cases explored, no proof.',
+ 'Trusted: oracle/refchunker.go (frozen buzhash table + discriminator formula, anchored against testdata/chunker.index each run), Go crypto hashes, the race detector. Schedules are sampled, not enumerated.',
+ 'DESIGN.md 5/C02')
